@@ -102,6 +102,14 @@ func (p *parser) parse() (e *expr.Expression, err error) {
 								return e, err
 							}
 						}
+						// keep reducing until the AND may be shifted, exactly as for an explicit AND
+						// (e.g. `NOT a:b c:d` has to reduce a:b and then the NOT).
+						for !p.shouldShift(implAnd) {
+							err = p.reduce()
+							if err != nil {
+								return e, err
+							}
+						}
 
 						// if we have a literal as the previous parsed thing then
 						// we must be in an implicit AND and should reduce
